@@ -181,6 +181,9 @@ def fl(v):
 
 def run_solve(c):
     car = None
+    if c.get("fill"):
+        from props.c07 import fill_store
+        fill_store()  # (a long run of the tool: tens of thousands of diagram nodes are in the process-wide store already)
     if c.get("prev"):
         # rect.main keeps ONE Carrier and loads one module after the other into it: an earlier module (another
         # occupancy, possibly another grid) is solved on the same object first
@@ -291,6 +294,7 @@ def solve_s(draw):
         prev["b"] = draw(_i(-5, 20))
         prev.pop("bound", None)
         c["prev"] = prev
+    c["fill"] = draw(_i(0, 99)) == 0
     return c
 
 
